@@ -10,7 +10,7 @@ from pyramid.asset import abspath_from_asset_spec, resolve_asset_spec
 from pyramid.httpexceptions import HTTPMovedPermanently, HTTPNotFound
 from pyramid.path import caller_package
 from pyramid.response import FileResponse, _guess_type
-from pyramid.traversal import traversal_path_info
+from pyramid.traversal import split_path_info
 
 
 class static_view:
@@ -144,7 +144,8 @@ class static_view:
         if self.use_subpath:
             path_tuple = request.subpath
         else:
-            path_tuple = traversal_path_info(request.path_info)
+            # request.path_info is already decoded text
+            path_tuple = split_path_info(request.path_info)
         path = _secure_path(path_tuple)
 
         if path is None:
